@@ -8,7 +8,6 @@ Local Open Scope N_scope.
    operand types and all operator classes, setValueType's result is the C++ type of the expression
    (integer promotions by representability, usual arithmetic conversions by rank and width) *)
 Theorem C09_result_type_spec_under_strict_widths w op a b : strict w ->
-  (op = CCond -> crank a = crank b -> a = b) ->
   ctype_of (result_type (opk_of op) (vt_of a) (vt_of b)) = Some (c_result true w op a b).
 Proof. exact (result_type_spec_under_strict_widths w op a b). Qed.
 Print Assumptions C09_result_type_spec_under_strict_widths.
@@ -48,12 +47,11 @@ Theorem C09_c_conditional_small_refuted : forall w, strict w ->
 Proof. exact c_conditional_small_refuted. Qed.
 Print Assumptions C09_c_conditional_small_refuted.
 
-(* refuted: `x ? i : u` with two different types of one rank takes the first operand's type
-   (isTypeEqual ignores the sign), in C and C++ *)
-Theorem C09_conditional_mixed_sign_refuted : forall w cpp, strict w ->
-  ctype_of (result_type OTernary (vt_of CInt) (vt_of CUInt)) = Some CInt /\ c_result cpp w CCond CInt CUInt = CUInt.
-Proof. exact conditional_mixed_sign_refuted. Qed.
-Print Assumptions C09_conditional_mixed_sign_refuted.
+(* `x ? i : u` with two different types of one rank is unsigned int (C and C++); refuted before /repo 513f3e3 *)
+Example C09_ex_conditional_mixed_sign : forall cpp,
+  ctype_of (result_type OTernary (vt_of CInt) (vt_of CUInt)) = Some CUInt /\
+  c_result cpp (widths_of plat_unix64) CCond CInt CUInt = CUInt.
+Proof. exact conditional_mixed_sign_now. Qed.
 
 (* integer literals (holds since /repo 75f7975; before, refuted by `0x100000000` and `020000000000`
    on unix64): for every platform record with int <= long <= long long, every value and suffix, when
@@ -66,7 +64,7 @@ Proof. exact (literal_type_spec p dec usfx lcount v t). Qed.
 Print Assumptions C09_literal_type_spec.
 
 (* on the shipped platforms every disagreement with ISO C (any operator class, operand pair, C or C++)
-   has one of five causes: a conditional whose operands are two types of one rank, equal width of a lower-ranked unsigned and a higher-ranked signed type,
+   has one of four causes: equal width of a lower-ranked unsigned and a higher-ranked signed type,
    an unsigned type below int as wide as int, C comparison typed bool, C conditional of one small type;
    `explain = 0` is agreement (finite: the regenerated table x 2 x 4 x 12 x 12) *)
 Theorem C09_table_deviations_explained : table_explained Gen_platforms = true.
@@ -81,7 +79,7 @@ Print Assumptions C09_explain_0_agrees.
 (* UNBOUNDED version of the table theorem: for EVERY assignment of widths with
    1 < char <= short <= int <= long <= long long (any equalities; all shipped platforms and any platform
    file are instances), every language, operator class and operand pair: the model gives the ISO C type,
-   or the disagreement is in one of the five classes; the class is decided by `explain` from the operand
+   or the disagreement is in one of the four classes; the class is decided by `explain` from the operand
    types and the width (in)equalities.  Proof: spec, model and `explain` depend on the widths only through
    their order type (canon), and each of the 16 x 2 order types is checked by computation *)
 Theorem C09_deviations_explained_for_all_widths w cpp op a b : ordered w -> explain cpp w op a b <> 9.
@@ -90,20 +88,19 @@ Print Assumptions C09_deviations_explained_for_all_widths.
 
 Theorem C09_result_type_spec_for_all_widths w cpp op a b : ordered w ->
   ctype_of (result_type (opk_of op) (vt_of a) (vt_of b)) = Some (c_result cpp w op a b) \/
-  (1 <= explain cpp w op a b /\ explain cpp w op a b <= 5).
+  (1 <= explain cpp w op a b /\ explain cpp w op a b <= 4).
 Proof. exact (result_type_spec_for_all_widths w cpp op a b). Qed.
 Print Assumptions C09_result_type_spec_for_all_widths.
 
-(* the five classes, exactly: 1 equal width of a lower-ranked unsigned and a higher-ranked signed operand,
+(* the four classes, exactly: 1 equal width of a lower-ranked unsigned and a higher-ranked signed operand,
    2 an unsigned operand below int that int cannot represent, 3 C comparison, 4 C conditional of one small
-   type, 5 conditional of two different types of one rank; any class means disagreement *)
+   type (a fifth, the conditional of two different types of one rank, is empty since /repo 513f3e3); any class means disagreement *)
 Theorem C09_explain_class_sound cpp w op a b :
   let k := explain cpp w op a b in
   (k = 1 -> cause_equal_width w a b = true /\ (op = CArith \/ op = CCond)) /\
   (k = 2 -> (cause_promotion w a = true \/ cause_promotion w b = true) /\ op <> CCompare) /\
   (k = 3 -> cpp = false /\ op = CCompare) /\
   (k = 4 -> cpp = false /\ op = CCond /\ small_same a b = true) /\
-  (k = 5 -> op = CCond /\ crank a = crank b /\ ctype_eqb a b = false) /\
   (k <> 0 -> agrees cpp w op a b = false).
 Proof. exact (explain_class_sound cpp w op a b). Qed.
 Print Assumptions C09_explain_class_sound.
@@ -111,19 +108,14 @@ Print Assumptions C09_explain_class_sound.
 (* unary + - ~ : the promoted type for every ordered assignment of widths, unless the operand is an
    unsigned type below int that int cannot represent (class 2, same defect as for binary operators) *)
 Theorem C09_unary_arith_spec w a : ordered w ->
-  ctype_of (result_type1 (vt_of a)) = Some (promote w a) \/ cause_promotion w a = true.
+  ctype_of (result_type1 UArith (vt_of a)) = Some (promote w a) \/ cause_promotion w a = true.
 Proof. exact (unary_arith_spec w a). Qed.
 Print Assumptions C09_unary_arith_spec.
 
-(* ++ -- : the operand's type from int upwards; refuted below int (`us++` is typed signed int) *)
-Theorem C09_incdec_spec a : 3 <= crank a -> ctype_of (result_type1 (vt_of a)) = Some a.
-Proof. exact (incdec_spec a). Qed.
+(* ++ -- : the operand's type for every operand type (true since /repo 4cd9f32; before, `us++` was typed signed int) *)
+Theorem C09_incdec_spec w a : ctype_of (result_type1 UIncDec (vt_of a)) = Some (c_result1 w UIncDec a).
+Proof. exact (incdec_spec w a). Qed.
 Print Assumptions C09_incdec_spec.
-
-Theorem C09_incdec_small_refuted : forall w,
-  ctype_of (result_type1 (vt_of CUShort)) = Some CInt /\ c_result1 w UIncDec CUShort = CUShort.
-Proof. exact incdec_small_refuted. Qed.
-Print Assumptions C09_incdec_small_refuted.
 
 Theorem C09_unary_deviations_explained w op a : ordered w -> explain1 w op a <> 9.
 Proof. exact (unary_deviations_explained w op a). Qed.
